@@ -91,7 +91,12 @@ static void run_alloc(const char* cid, unsigned long long seed, int strategy, co
   std::map<T, int> owner;                               // value -> thread that holds it now
   std::vector<std::vector<VersionedValue<T>>> held(threads.size());
   bool dup = false;
+  // "version bumped on every push": the head version (read from the private head word between operations) never
+  // decreases, and at quiescence it equals the number of deallocate calls made (pops keep it, every push adds one)
+  bool headmono = true; unsigned long last_ver = 0, pushes = 0;
+  auto watch_head = [&] { unsigned long v = al->_free_head.version; if (v < last_ver) headmono = false; last_ver = v; };
   auto exec = [&](size_t t, Op& op) {
+    struct AtExit { std::function<void()> f; ~AtExit() { f(); } } at_exit{watch_head};
     if (op.k == 'A') {
       auto id = al->allocate();
       if (owner.count(id.value)) dup = true;            // two owners at the same time
@@ -103,6 +108,7 @@ static void run_alloc(const char* cid, unsigned long long seed, int strategy, co
       auto id = held[t][op.arg]; held[t].erase(held[t].begin() + op.arg);
       owner.erase(id.value);
       al->deallocate(id);
+      pushes++;
       op.res = "f";
     } else op.res = "?";
   };
@@ -116,6 +122,7 @@ static void run_alloc(const char* cid, unsigned long long seed, int strategy, co
   for (auto& kv : owner) want.insert(kv.first);
   T end0 = al->end();
   bool foreach_ok = ranges_ok && live == want;
+  bool pushcount = (T)al->_free_head.version == (T)pushes;
   std::string out = join_results(threads) + " live=" + show_set(live) + " end=" + std::to_string((unsigned long)end0);
   // free-list integrity / reuse at quiescence: exactly end - |held| values come back before anything new is minted
   bool reuse_ok = true; std::set<T> got;
@@ -126,8 +133,8 @@ static void run_alloc(const char* cid, unsigned long long seed, int strategy, co
     if (want.count(id.value) || !got.insert(id.value).second) { dup = true; break; }
   }
   if (reuse_ok && !dup) { auto id = al->allocate(); if (id.value != end0) dup = true; }
-  printf("%s ok steps=%llu | %s | unique=%d foreach=%d reuse=%d\n", cid, (unsigned long long)r.steps, out.c_str(), !dup,
-         foreach_ok, reuse_ok);
+  printf("%s ok steps=%llu | %s | unique=%d foreach=%d reuse=%d headmono=%d pushcount=%d\n", cid, (unsigned long long)r.steps,
+         out.c_str(), !dup, foreach_ok, reuse_ok, headmono, pushcount);
   fflush(stdout);
   delete al;
 }
@@ -147,14 +154,18 @@ static void run_box(const char* cid, unsigned long long seed, int strategy, cons
   std::vector<std::vector<Holder>> holders(threads.size());
   for (auto& hs : holders) { hs.resize(3); for (auto& H : hs) H.a.emplace(); }
   // the item H is supposed to hold is about to be given back by the next statement
+  bool headmono = true; unsigned long last_ver = 0, pushes = 0;
+  auto watch_head = [&] { unsigned long v = box->_slot_id_allocator._free_head.version; if (v < last_ver) headmono = false; last_ver = v; };
   auto expect_finish = [&](Holder& H) {
     if (H.shadow < 0) return;
+    pushes++;
     size_t k = (size_t)H.shadow;
     if (!(bool)*H.a || **H.a != payload[k]) payload_ok = false;   // a held item was lost / overwritten
     slot_owner.erase(ids[k].value);
     H.shadow = -1;
   };
   auto exec = [&](size_t t, Op& op) {
+    struct AtExit { std::function<void()> f; ~AtExit() { f(); } } at_exit{watch_head};
     if (op.k == 'E') {
       uint64_t p = ++serial;
       auto id = box->emplace(p);
@@ -174,6 +185,7 @@ static void run_box(const char* cid, unsigned long long seed, int strategy, cons
       size_t k = taken[t].front(); taken[t].erase(taken[t].begin());
       slot_owner.erase(ids[k].value);
       box->finish_released(ids[k]);
+      pushes++;
       op.res = "r";
     } else if (op.k == 'K') {
       if ((size_t)op.arg2 >= ids.size()) { op.res = "-"; return; }
@@ -211,6 +223,7 @@ static void run_box(const char* cid, unsigned long long seed, int strategy, cons
   std::set<uint32_t> live, want; bool ranges_ok = collect_live<IdAllocator<uint32_t>, uint32_t>(box->_slot_id_allocator, live);
   for (auto& kv : slot_owner) want.insert(kv.first);
   uint32_t end0 = box->_slot_id_allocator.end();
+  bool pushcount = box->_slot_id_allocator._free_head.version == (uint32_t)pushes;
   std::string out = join_results(threads) + " live=" + show_set(live) + " end=" + std::to_string(end0);
   bool foreach_ok = ranges_ok && live == want;
   // post phase (quiescent, sequential): every id not yet taken yields its item exactly once; every id already
@@ -246,8 +259,8 @@ static void run_box(const char* cid, unsigned long long seed, int strategy, cons
       if (!got.insert(id.value).second) { dup = true; break; }                                      // a slot finished twice
     }
   }
-  printf("%s ok steps=%llu | %s | unique=%d foreach=%d onewin=%d stale=%d payload=%d reuse=%d\n", cid, (unsigned long long)r.steps,
-         out.c_str(), !dup, foreach_ok, onewin, stale_ok, payload_ok, reuse_ok);
+  printf("%s ok steps=%llu | %s | unique=%d foreach=%d onewin=%d stale=%d payload=%d reuse=%d headmono=%d pushcount=%d\n", cid,
+         (unsigned long long)r.steps, out.c_str(), !dup, foreach_ok, onewin, stale_ok, payload_ok, reuse_ok, headmono, pushcount);
   fflush(stdout);
   // Box has no public destructor either; leak it (one per case).
 }
